@@ -30,8 +30,9 @@ TYPES = {
     "I64": ("i64", [("-9223372036854775807i64", "-9223372036854775807"), ("0i64", "0")]),
     "Unit": ("()", [("()", "null"), ("()", "null")]),
     # u32 arguments carrying a forwarded serde(default): plain, and wrapped in a conditional attribute with a true predicate (C17)
-    "DfltU32": ("u32", [("7u32", "7"), ("4000000000u32", "4000000000")]),
-    "DfltU32W": ("u32", [("7u32", "7"), ("4000000000u32", "4000000000")]),
+    # (one of the two values is the type's default: an argument holding its default value is still written on the wire)
+    "DfltU32": ("u32", [("7u32", "7"), ("0u32", "0")]),
+    "DfltU32W": ("u32", [("0u32", "0"), ("4000000000u32", "4000000000")]),
     # the type parameter of a generic program, instantiated with verif_rrt::GenVal
     "GenT": ("GenVal", [("GenVal { g: 7 }", '{"g":7}'), ("GenVal { g: 4000000000 }", '{"g":4000000000}')]),
 }
